@@ -92,25 +92,34 @@ Neighbors find_neighbors_covertree_impl(RandomAccessIterator begin, RandomAccess
     node<TreePoint> ct = cover_tree.batch_create(callback, points);
 
     v_array<v_array<TreePoint>> res;
-    ++k; // because one of the neighbors will be the actual query point
-    cover_tree.k_nearest_neighbor(callback, ct, ct, res, k);
+    // ask for k + 1 because one of the neighbors will be the actual query point
+    cover_tree.k_nearest_neighbor(callback, ct, ct, res, k + 1);
 
     Neighbors neighbors;
     neighbors.resize(end - begin);
     assert(end - begin == res.index);
     for (int i = 0; i < res.index; ++i)
     {
-        LocalNeighbors local_neighbors;
-        local_neighbors.reserve(k);
-
-        for (IndexType j = 1; j <= k; ++j) // j=0 is the query point
+        // res[i][0] is the query point, the rest is the unordered set of all points
+        // (the query among them) that are as close as the (k+1)-th nearest one, ties
+        // included. Order the other points by distance and keep the k nearest.
+        const RandomAccessIterator query = res[i][0].iter_;
+        std::vector<std::pair<ScalarType, IndexType>> candidates;
+        candidates.reserve(res[i].index);
+        for (int j = 1; j < res[i].index; ++j)
         {
             // The actual query point is found as a neighbor, just ignore it
-            if (res[i][j].iter_ - begin == res[i][0].iter_ - begin)
+            if (res[i][j].iter_ == query)
                 continue;
-            local_neighbors.push_back(res[i][j].iter_ - begin);
+            candidates.push_back(std::make_pair(callback.distance(query, res[i][j].iter_), res[i][j].iter_ - begin));
         }
-        neighbors[res[i][0].iter_ - begin] = local_neighbors;
+        std::sort(candidates.begin(), candidates.end());
+
+        LocalNeighbors local_neighbors;
+        local_neighbors.reserve(k);
+        for (IndexType j = 0; j < k && j < static_cast<IndexType>(candidates.size()); ++j)
+            local_neighbors.push_back(candidates[j].second);
+        neighbors[query - begin] = local_neighbors;
     };
     return neighbors;
 }
